@@ -1,11 +1,11 @@
 from pyvc import runner
-from contracts import messages
+from contracts import messages, codecs, packets
 
 PID = 'C20'
 
 
 def items():
-    return messages.scenarios()
+    return messages.scenarios() + [s for s in packets.scenarios() if PID in s.props]
 
 
 def run(tier='quick', seed=0, only=None):
@@ -13,7 +13,7 @@ def run(tier='quick', seed=0, only=None):
     bounded = []
     if not only:
         from bounded import messages as _b
-        bounded = [_b.component]
+        bounded = [_b.component, codecs.partial_lengths_bounded]     # imported messages may use partial body lengths (4.2.2.4)
     return runner.run_property(PID, its, bounded=bounded, tier=tier, seed=seed, level='proof',
                                trusted_base=['pyvc symbolic executor', 'z3 5.1 / cvc5 1.0.3'],
                                assumptions=['compression externals (zlib/bz2) are inverse pairs (checked natively, bounded)'])
